@@ -69,7 +69,12 @@ type Prop struct {
 	// PreWrite: the case is written to $VERIF_FAILDIR/current.json before it runs, so that a
 	// process abort (race detector, fatal runtime error) still leaves a replay file.
 	PreWrite bool
+	// PreWriteIf: like PreWrite, for the cases it selects (those that make the library start goroutines:
+	// a panic inside such a goroutine cannot be recovered by any caller and ends the process)
+	PreWriteIf func(c any) bool
 }
+
+var preWritten bool
 
 var registry = map[string]*Prop{}
 
@@ -176,7 +181,15 @@ func RunCase(p *Prop, c any) error {
 			return nil
 		}
 	}
-	if p.PreWrite {
+	if !p.PreWrite && preWritten {
+		// the file describes an earlier case: it must not be blamed for an abort of this one
+		if dir := os.Getenv("VERIF_FAILDIR"); dir != "" {
+			os.Remove(filepath.Join(dir, "current.json"))
+		}
+		preWritten = false
+	}
+	if p.PreWrite || (p.PreWriteIf != nil && p.PreWriteIf(c)) {
+		preWritten = true
 		if dir := os.Getenv("VERIF_FAILDIR"); dir != "" {
 			if raw, merr := json.Marshal(c); merr == nil {
 				out, _ := json.Marshal(Replay{Property: p.ID, Case: raw, Error: "process aborted while this case was running (data race report or fatal runtime error)"})
